@@ -13,6 +13,7 @@ import (
 	"io"
 	"os"
 	"path/filepath"
+	"runtime"
 	"strings"
 	"sync"
 	"sync/atomic"
@@ -531,7 +532,8 @@ func openNode(o *xp.NodeOpts) (*nodeH, error) {
 	}()
 	node, err := consensus.NewRaftNode(opts, fs, h.ch, nil)
 	if err != nil {
-		st.Close()
+		// NewRaftNode closes the store itself on most of its error paths
+		// (node.Close): closing it again here would be a double free
 		return nil, err
 	}
 	h.node = node
@@ -768,7 +770,9 @@ func runQueries(n *consensus.RaftNode, qs []xp.Query, timeout time.Duration) []x
 		select {
 		case <-done[i]:
 		case <-deadline:
-			// leave the goroutine behind; report the hang
+			// leave the goroutine behind; report the hang, with every stack
+			buf := make([]byte, 4<<20)
+			fmt.Fprintf(os.Stderr, "QUERY-TIMEOUT goroutine dump:\n%s\nEND-OF-DUMP\n", buf[:runtime.Stack(buf, true)])
 			res := make([]xp.Answer, len(qs))
 			for j := range qs {
 				select {
